@@ -1935,6 +1935,12 @@ func main() {
 		"gosim: scheduling points are channel operations, atomics, locks and (where stated) the writer's Write; map iteration in rewritten martian code is in sorted key order; virtual clock",
 		"part 3 runs the unmodified reader code natively (it has no concurrency); an attempt to allocate > 1 GiB is detected by an address-space cap on the worker process" + map[bool]string{true: " (cap could not be installed in this run: detection falls back to measured allocation > 64 MiB)", false: ""}[rd.uncapped],
 	}
+	// auxiliary race pass: the same kind of thread bodies free-running on the unrewritten tree under -race
+	raceIters := "30"
+	if lib.Tier() == "thorough" {
+		raceIters = "300"
+	}
+	rep.ReportRaces(lib.RacePass("c19", "racebodies", "c19", raceIters))
 	rep.Finish()
 }
 
